@@ -144,6 +144,8 @@ fn drive_reads<T: AsyncRead + Unpin>(x: &mut T, ops: &[AOp]) -> String {
 pub fn chain_line(s1: &ASrw, s2: &ASrw, ops: &[AOp], w: &mut impl std::io::Write) {
     let log = Log::default();
     let (mut a, mut b) = (s1.twin(&log), s2.twin(&log));
+    a.vectored = true;
+    b.vectored = true;
     let impl_res = {
         let mut chain = AsyncReadWriteChain::new(&mut a, &mut b);
         drive(&mut chain, ops)
@@ -172,6 +174,7 @@ pub fn chainbuf_line<const N: usize>(content: &[u8], ri: usize, s2: &ASrw, ops: 
     let log = Log::default();
     let mut first = mk();
     let mut b = s2.twin(&log);
+    b.vectored = true;
     let impl_res = {
         let mut chain = AsyncReadWriteChain::new(&mut first, &mut b);
         drive(&mut chain, ops)
@@ -191,6 +194,7 @@ pub fn chainbuf_line<const N: usize>(content: &[u8], ri: usize, s2: &ASrw, ops: 
 pub fn take_line(s: &ASrw, limit: u64, ops: &[AOp], w: &mut impl std::io::Write) {
     let log = Log::default();
     let mut a = s.twin(&log);
+    a.vectored = true;
     let impl_res = {
         let mut take = AsyncReadWriteTake::new(&mut a, limit);
         drive(&mut take, ops)
@@ -278,6 +282,27 @@ pub fn run(mode: &str, thorough: bool, seed: u64, w: &mut impl std::io::Write) {
     // every schedule of <= 3 ReadBufs from {empty+cap0, empty+cap1, empty+cap4, prefilled 1 + cap 0, prefilled 2 + cap 2}
     let bufs = [(0usize, 0usize), (0, 1), (0, 4), (1, 0), (2, 2)];
     let scheds: Vec<Vec<AOp>> = seqs(&bufs, 3).into_iter().filter(|s| !s.is_empty()).map(|s| s.into_iter().map(|(p, c)| AOp::Read(p, c)).collect()).collect();
+    // vectored writes of total length zero (no slices, only empty slices) and mixed ones, against every scripted result
+    for wact in [WAct::Full, WAct::Part(1), WAct::Zero, WAct::Err(5), WAct::Pending] {
+        let ops = vec![AOp::WriteV(vec![]), AOp::WriteV(vec![vec![]]), AOp::WriteV(vec![vec![], vec![]]), AOp::WriteV(vec![vec![], b"ab".to_vec(), b"c".to_vec()]), AOp::Write(b"z".to_vec()), AOp::Flush];
+        for shift in 0..ops.len() {
+            let mut o = ops.clone();
+            o.rotate_left(shift);
+            if mode == "achain" {
+                let s1 = ASrw::new(1, b"AB", vec![]);
+                let mut s2 = ASrw::new(2, b"cd", vec![]);
+                s2.wacts = vec![wact.clone(), WAct::Full, wact.clone()];
+                chain_line(&s1, &s2, &o, w);
+                n += 1;
+            }
+            if mode == "atake" {
+                let mut s = ASrw::new(1, b"abcd", vec![]);
+                s.wacts = vec![wact.clone(), WAct::Full, wact.clone()];
+                take_line(&s, 3, &o, w);
+                n += 1;
+            }
+        }
+    }
     // every error kind std::io knows: on reads, writes, flush and shutdown, from either stream
     for kind in 2u8..=38 {
         let ops = vec![AOp::Read(0, 4), AOp::Write(b"xy".to_vec()), AOp::Flush, AOp::Read(1, 4), AOp::Write(b"z".to_vec()), AOp::Shutdown, AOp::Read(0, 4)];
